@@ -742,7 +742,7 @@ struct AnyShard {
 }
 
 fn any_order(c: &AnyCase) -> (usize, i64, Vec<(i64, i64, i64)>, usize, usize, i64, usize) {
-    let w: i64 = c.entries.iter().map(|t| t.0 + t.1 + t.2.abs()).sum();
+    let w: i64 = c.entries.iter().fold(0i64, |a, t| a.saturating_add(t.0 + t.1).saturating_add(t.2.saturating_abs()));
     (c.entries.len(), w, c.entries.clone(), c.dlen, c.xlen, c.out, c.old)
 }
 
@@ -858,6 +858,25 @@ fn run_any(rep: &Report, tier: Tier, deadline: Instant) -> Value {
         sh
     });
 
+    // extreme seeks: one or two leading triples that only seek by ±(2^63 − 1), then every triple
+    // of the alphabet — the old-file position saturates or overflows before the next read
+    let mut shards = shards;
+    {
+        let mut sh = AnyShard::default();
+        let ext = [i64::MAX, -i64::MAX];
+        for s1 in ext {
+            for t in &alpha {
+                eval_block(&[(0, 0, s1), *t], &mut sh);
+                if max_entries >= 3 || t.0 >= 2 {
+                    for s2 in ext {
+                        eval_block(&[(0, 0, s1), (0, 0, s2), *t], &mut sh);
+                    }
+                }
+            }
+        }
+        shards.push(sh);
+    }
+
     let mut t = AnyShard::default();
     let mut skipped = 0;
     for sh in shards {
@@ -915,7 +934,7 @@ fn run_any(rep: &Report, tier: Tier, deadline: Instant) -> Value {
     json!({
         "max_triples": max_entries,
         "triple_alphabet": alpha.len(),
-        "diff_extra_range": "0..=3", "seek_range": "-3..=3",
+        "diff_extra_range": "0..=3", "seek_range": "-3..=3", "extreme_seeks": "one or two leading triples (0,0,±(2^63−1)) before every triple of the alphabet",
         "data_lengths": if max_entries >= 3 { "needed-1, needed, needed+1 for each of the diff and extra blocks (all 9 combinations for ≤ 2 triples; for 3 triples one block off by one at a time: 5 combinations)" } else { "needed-1, needed, needed+1 for each of the diff and extra blocks (all 9 combinations)" },
         "output_size": "0..=8",
         "old_files": ANY_OLDS.iter().map(|o| String::from_utf8_lossy(o).to_string()).collect::<Vec<_>>(),
